@@ -38,6 +38,8 @@ type txCase struct {
 	// Salt: when not 0, part of every statement's text (a block comment), so that the per-statement checksums
 	// differ from case to case
 	Salt int `json:"salt,omitempty"`
+	// Order: --exec-order (default linear); the histories here are linear, so the order changes nothing
+	Order string `json:"exec_order,omitempty"`
 }
 
 type mRev struct {
@@ -147,6 +149,9 @@ func (c *txCase) args(db string) []string {
 	}
 	if c.DryRun {
 		a = append(a, "--dry-run")
+	}
+	if c.Order != "" {
+		a = append(a, "--exec-order", c.Order)
 	}
 	if c.Count > 0 {
 		a = append(a, strconv.Itoa(c.Count))
